@@ -152,6 +152,41 @@ func runC08(c *harness.Case) {
 		if req != 0 && req < floor {
 			sawLower = true
 		}
+		if fw != nil && r.Intn(4) == 0 {
+			// the same request is first made while the compaction record cannot be read (or cannot be written): whatever
+			// that attempt answers, the retry that follows is judged like any other request
+			compactKey := []byte(harness.Prefix + "/compact_key")
+			how := []string{"unreadable", "unwritable"}[r.Intn(2)]
+			if how == "unreadable" {
+				fw.GetFault = func(key []byte) error {
+					if bytes.Equal(key, compactKey) {
+						return errors.New("injected: region is unavailable")
+					}
+					return nil
+				}
+			} else {
+				fw.Decide = func(b *harness.BatchInfo) harness.Decision {
+					for _, op := range b.Ops {
+						if bytes.Equal(op.Key, compactKey) {
+							return harness.FailDefinite
+						}
+					}
+					return harness.Pass
+				}
+			}
+			fresp, ferr := n.B.Compact(harness.Ctx, req)
+			fw.GetFault, fw.Decide = nil, nil
+			hist = append(hist, fmt.Sprintf("Compact(%d) [%s] while the compaction record is %s -> (%d, %v)", req, kindReq, how, fresp.GetHeader().GetRevision(), ferr))
+			c.Stat("compaction_requests_made_with_the_record_"+how, 1)
+			if ferr == nil {
+				F := fresp.Header.GetRevision()
+				accepted = append(accepted, F)
+				if F > floor {
+					floor = F
+				}
+			}
+			kindReq += "+retry-after-" + how + "-record"
+		}
 		resp, err := n.B.Compact(harness.Ctx, req)
 		vec = append(vec, kindReq)
 		if err != nil {
@@ -346,8 +381,11 @@ func runC08Overlap(c *harness.Case) {
 	// the held request names the lower or the higher revision; requests go to the backend or through the native
 	// server's Compact handler (which is what a client or the leader's compaction loop reaches)
 	first, second := low, high
-	if r.Intn(2) == 0 {
+	switch r.Intn(5) {
+	case 0, 1:
 		first, second = high, low
+	case 2:
+		second = first // two requests for the same revision (two compactors with the same schedule)
 	}
 	viaServer := r.Intn(2) == 0
 	bs := brain.New(n.B, n.Metrics, harness.NewPeers(true))
@@ -413,6 +451,27 @@ func runC08Overlap(c *harness.Case) {
 		aDone <- aAns
 	}
 	revB, errB := doCompact(second)
+	if placed && errB == nil {
+		// B has been accepted while A is still held: B's answer alone already obliges the node
+		val, gerr := eng.KV.Get(harness.Ctx, compactKey)
+		rec := uint64(0)
+		if gerr == nil && len(val) == 8 {
+			rec = binary.BigEndian.Uint64(val)
+		}
+		_, lerr := n.List(harness.Prefix+"/", string(backend.PrefixEnd([]byte(harness.Prefix+"/"))), revB-1, 0)
+		if rec < revB || (lerr == nil && revB-1 > n.Start) {
+			hist = append(hist, fmt.Sprintf("Compact(%d) is held at %s #%d of the compaction record; meanwhile Compact(%d) -> (%d, nil); record now %d; List at %d -> err %v", first, holdKind, holdAt, second, revB, rec, revB-1, lerr))
+			close(release)
+			<-aDone
+			if rec < revB {
+				c.Violatef("C08 compaction-record-below-accepted-revision overlapping-compactions held="+holdKind, wit(), "Compact(%d) was accepted with effective revision %d while another request was in flight, the stored compaction record is %d at that moment", second, revB, rec)
+			} else {
+				c.Violatef("C08 range-read-below-floor-served overlapping-compactions while-first-request-in-flight", wit(), "Compact(%d) was accepted with effective revision %d while another request was in flight; List at revision %d was then served", second, revB, revB-1)
+			}
+			return
+		}
+		c.Stat("floors_checked_while_the_first_request_was_still_in_flight", 1)
+	}
 	if placed {
 		close(release)
 	}
